@@ -127,6 +127,29 @@ Proof.
       * eapply IH; eauto.
 Qed.
 
+Lemma ab_moves_restores depth ply alpha beta s v s' :
+  Inv s -> ab_moves zt osort rec b depth ply alpha beta s = Ok (v, s') -> dt_equiv (table s') t0.
+Proof.
+  intros I H. unfold ab_moves in H.
+  destruct (generate_moves zt b AllMoves) as [|g0 gs] eqn:G.
+  { destruct (is_check b (to_move b)); eapply leave_restores; eauto. }
+  destruct (rank_moves s ply (g0 :: gs)) as [ranked| |]; try discriminate.
+  destruct (do_sort osort ranked s) as [sorted s1] eqn:DS.
+  assert (I1 : Inv s1).
+  { eapply Inv_same; [exact I|]. change s1 with (snd (sorted, s1)). rewrite <- DS. reflexivity. }
+  destruct sorted as [|m0 rest]; [discriminate|].
+  destruct (insert_into_cur_line s1 ply m0) as [s2| |] eqn:E2; try discriminate.
+  assert (I2 : Inv s2) by (eapply Inv_same; [exact I1|eapply insert_cur_table; eauto]).
+  set (s3 := if negb (order_heuristic m0 =? POS_INF) then set_principle_variation s2 else s2) in *.
+  assert (I3 : Inv s3) by (unfold s3; destruct (negb _); [eapply Inv_same; [exact I2|reflexivity]|exact I2]).
+  destruct (rec m0 (depth - 1) (ply + 1) (- beta) (- alpha) true s3) as [[v0 s4]| |] eqn:E4; try discriminate.
+  assert (I4 : Inv s4) by (eapply Inv_rec; eauto).
+  destruct ((alpha <? - v0) && (beta <=? - v0)); [eapply leave_restores; eauto|].
+  destruct (alpha <? - v0).
+  - eapply ab_loop_restores; [|exact H]. eapply Inv_same; [exact I4|reflexivity].
+  - eapply ab_loop_restores; eauto.
+Qed.
+
 Lemma ab_body_restores depth ply alpha beta allow_null s v s' :
   Inv s -> ab_body zt osort rec qrec b depth ply alpha beta allow_null s = Ok (v, s') -> dt_equiv (table s') t0.
 Proof.
@@ -138,47 +161,13 @@ Proof.
   set (alpha' := Z.max alpha (- MATE_SCORE + ply)) in *.
   set (beta' := Z.min beta (MATE_SCORE - ply)) in *.
   destruct (beta' <=? alpha'); [eapply leave_restores; eauto|].
-  (* null move *)
   destruct (allow_null && (NULL_MIN_DEPTH <=? depth') && negb (is_check b (to_move b))).
   - destruct (rec (with_to_move b (opposite (to_move b))) (depth' - NULL_REDUCTION) (ply + NULL_PLY_OFFSET)
                   (- beta') (- beta' + 1) false s) as [[vn sn]| |] eqn:EN; try discriminate.
     assert (In_ : Inv sn) by (eapply Inv_rec; eauto).
     destruct (beta' <=? - vn); [eapply leave_restores; eauto|].
-    revert H. generalize sn In_. clear EN In_ sn. intros sn In_ H.
-    destruct (generate_moves zt b AllMoves) as [|g0 gs] eqn:G.
-    { destruct (is_check b (to_move b)); eapply leave_restores; eauto. }
-    destruct (rank_moves sn ply (g0 :: gs)) as [ranked| |]; try discriminate.
-    destruct (do_sort osort ranked sn) as [sorted s1] eqn:DS.
-    assert (I1 : Inv s1).
-    { eapply Inv_same; [exact In_|]. change s1 with (snd (sorted, s1)). rewrite <- DS. reflexivity. }
-    destruct sorted as [|m0 rest]; [discriminate|].
-    destruct (insert_into_cur_line s1 ply m0) as [s2| |] eqn:E2; try discriminate.
-    assert (I2 : Inv s2) by (eapply Inv_same; [exact I1|eapply insert_cur_table; eauto]).
-    set (s3 := if negb (order_heuristic m0 =? POS_INF) then set_principle_variation s2 else s2) in *.
-    assert (I3 : Inv s3) by (unfold s3; destruct (negb _); [eapply Inv_same; [exact I2|reflexivity]|exact I2]).
-    destruct (rec m0 (depth' - 1) (ply + 1) (- beta') (- alpha') true s3) as [[v0 s4]| |] eqn:E4; try discriminate.
-    assert (I4 : Inv s4) by (eapply Inv_rec; eauto).
-    destruct ((alpha' <? - v0) && (beta' <=? - v0)); [eapply leave_restores; eauto|].
-    destruct (alpha' <? - v0).
-    + eapply ab_loop_restores; [|exact H]. eapply Inv_same; [exact I4|reflexivity].
-    + eapply ab_loop_restores; eauto.
-  - destruct (generate_moves zt b AllMoves) as [|g0 gs] eqn:G.
-    { destruct (is_check b (to_move b)); eapply leave_restores; eauto. }
-    destruct (rank_moves s ply (g0 :: gs)) as [ranked| |]; try discriminate.
-    destruct (do_sort osort ranked s) as [sorted s1] eqn:DS.
-    assert (I1 : Inv s1).
-    { eapply Inv_same; [exact I|]. change s1 with (snd (sorted, s1)). rewrite <- DS. reflexivity. }
-    destruct sorted as [|m0 rest]; [discriminate|].
-    destruct (insert_into_cur_line s1 ply m0) as [s2| |] eqn:E2; try discriminate.
-    assert (I2 : Inv s2) by (eapply Inv_same; [exact I1|eapply insert_cur_table; eauto]).
-    set (s3 := if negb (order_heuristic m0 =? POS_INF) then set_principle_variation s2 else s2) in *.
-    assert (I3 : Inv s3) by (unfold s3; destruct (negb _); [eapply Inv_same; [exact I2|reflexivity]|exact I2]).
-    destruct (rec m0 (depth' - 1) (ply + 1) (- beta') (- alpha') true s3) as [[v0 s4]| |] eqn:E4; try discriminate.
-    assert (I4 : Inv s4) by (eapply Inv_rec; eauto).
-    destruct ((alpha' <? - v0) && (beta' <=? - v0)); [eapply leave_restores; eauto|].
-    destruct (alpha' <? - v0).
-    + eapply ab_loop_restores; [|exact H]. eapply Inv_same; [exact I4|reflexivity].
-    + eapply ab_loop_restores; eauto.
+    eapply ab_moves_restores; eauto.
+  - eapply ab_moves_restores; eauto.
 Qed.
 
 End Node.
